@@ -46,6 +46,8 @@ struct Cfg {
     /// (step, count): `count` publisher streams fail between two polls while a few healthy publishers have an item
     /// ready; the router is then left alone until quiescent
     err_storm: Option<(usize, usize)>,
+    /// close the registration channel when the n-th item is yielded, i.e. in the middle of a router poll
+    close_on_yield: Option<u64>,
 }
 
 fn payload(peer: usize, seq: u32, rng: &mut Rng) -> Bytes {
@@ -109,6 +111,7 @@ fn gen_cfg(rng: &mut Rng, family: &str) -> Cfg {
         sink_profiles,
         prefill: if family == "burst" && rng.pct(60) { rng.usize(n_pubs + n_subs + 1) } else { 0 },
         err_storm: if family == "burst" && rng.pct(40) { Some((rng.usize(steps), rng.range(1, 40) as usize)) } else { None },
+        close_on_yield: if family == "firehose" && rng.pct(50) { Some(rng.range(3, 700)) } else { None },
         storm: if family == "burst" && rng.pct(70) {
             let total = n_pubs + n_subs;
             let count = if rng.pct(50) { rng.range(1, total as u64) as usize } else { total - rng.usize(total.min(6)) };
@@ -121,6 +124,7 @@ fn gen_cfg(rng: &mut Rng, family: &str) -> Cfg {
 
 struct Sim {
     sh: Shared,
+    relay_after_close_reported: bool,
     flag: Arc<WakeFlag>,
     fut: Pin<Box<dyn Future<Output = ()>>>,
     tx: Tx,
@@ -164,6 +168,27 @@ impl Sim {
         self.stats.polls += 1;
         let budget = self.budget();
         let res = guarded_poll(self.fut.as_mut(), &self.sh, &self.flag, budget, self.poll_no);
+        let (closed_inside, after_close) = {
+            let w = lock(&self.sh);
+            (w.closed_at_yield, w.closed_at_yield.map_or(0, |k| w.yields - k))
+        };
+        if closed_inside.is_some() {
+            self.closed = true;
+            // a router that has been told to stop reads at most the item it was handling; one that keeps relaying
+            // whatever its publishers supply finishes only when they run dry — or never
+            if after_close > 50 && !self.relay_after_close_reported {
+                self.relay_after_close_reported = true;
+                self.findings.push(Finding {
+                    class: "shutdown",
+                    sig: "pubsub/keeps-relaying-after-close".into(),
+                    detail: format!(
+                        "the registration channel was closed while the router was relaying (after item {}); the router took {} more items from its publishers without noticing — how long it keeps running is decided by the publishers' supply, not bounded",
+                        closed_inside.unwrap(),
+                        after_close
+                    ),
+                });
+            }
+        }
         match res {
             PollRes::Pending => {}
             PollRes::Ready => {
@@ -646,6 +671,7 @@ pub fn run(seed: u64, family: &str, keep_dump: bool) -> RunResult {
     flag.set(); // a spawned task is polled once
     let mut sim = Sim {
         sh: sh.clone(),
+        relay_after_close_reported: false,
         flag,
         fut: Box::pin(topic),
         tx,
@@ -683,6 +709,10 @@ pub fn run(seed: u64, family: &str, keep_dump: bool) -> RunResult {
             let s = w.add_peer(Kind::Subscriber, None, Some(SinkState::new(plan, false)));
             sim.subs.push(s);
         }
+    }
+    if let Some(n) = cfg.close_on_yield {
+        let mut t = sim.tx.clone();
+        lock(&sh).close_on_yield = Some((n, Box::new(move || t.close_channel())));
     }
     let mut remaining: HashMap<usize, u32> = sim.pubs.iter().copied().zip(cfg.items.iter().copied()).collect();
     if cfg.prefill > 0 {
@@ -965,7 +995,7 @@ pub fn run(seed: u64, family: &str, keep_dump: bool) -> RunResult {
         "engine": "routersim/pubsub", "family": family, "seed": seed,
         "n_pubs": cfg.n_pubs, "n_subs": cfg.n_subs, "items": cfg.items, "steps": cfg.steps,
         "spurious_polls": cfg.spurious, "close_at": cfg.close_at, "close_at_end": cfg.close_at_end,
-        "faults": cfg.faults, "sink_profiles": cfg.sink_profiles, "registrations_queued_before_first_poll": cfg.prefill, "registration_storm_step_count": cfg.storm, "error_storm_step_count": cfg.err_storm,
+        "faults": cfg.faults, "sink_profiles": cfg.sink_profiles, "registrations_queued_before_first_poll": cfg.prefill, "registration_storm_step_count": cfg.storm, "error_storm_step_count": cfg.err_storm, "close_when_item_n_is_yielded": cfg.close_on_yield,
     });
     let dump = if keep_dump || !sim.findings.is_empty() {
         Some(dump_world(&w, 400))
